@@ -1513,6 +1513,31 @@ pub fn hyps_of(g: &Goal, out: &mut Vec<Pred>) {
 pub fn hyp_overlaps_impl(p: &Prog, g: &Goal) -> bool {
     let mut hs = vec![];
     hyps_of(g, &mut hs);
+    // what a hypothesis elaborates to (supertraits / trait where-clauses on Self): `if (A: Foo)` with `trait Foo where
+    // Self: Qux` also provides `A: Qux`, which competes with the impls of Qux
+    let elaborated = hs.iter().any(|h| {
+        let mut seen: Vec<String> = vec![h.tr.clone()];
+        let mut work = vec![h.tr.clone()];
+        while let Some(t) = work.pop() {
+            if let Some(td) = p.tr(&t) {
+                for w in &td.wcs {
+                    if matches!(&w.ty, Ty::Var(v) if v == "Self") && !seen.contains(&w.tr) {
+                        seen.push(w.tr.clone());
+                        work.push(w.tr.clone());
+                    }
+                }
+            }
+        }
+        seen.iter().skip(1).any(|t| {
+            p.impls().filter(|im| im.positive && &im.tr == t).any(|im| {
+                let ren: BTreeMap<String, Ty> = im.params.iter().map(|q| (q.clone(), Ty::Var(format!("{}'i", q)))).collect();
+                unify_ty(&im.self_ty.subst(&ren), &h.ty, &mut BTreeMap::new())
+            })
+        })
+    });
+    if elaborated {
+        return true;
+    }
     hs.iter().any(|h| {
         p.impls().filter(|im| im.positive && im.tr == h.tr && im.args.len() == h.args.len()).any(|im| {
             let ren: BTreeMap<String, Ty> = im.params.iter().map(|q| (q.clone(), Ty::Var(format!("{}'i", q)))).collect();
